@@ -5,6 +5,7 @@
   merge in partition order; forked stream receivers).
 -/
 import KB.Lemmas.Partition
+import KB.Lemmas.Total
 namespace KB.C13
 open KB Generated
 
@@ -18,6 +19,20 @@ def GoodBorder (b : Bytes) : Prop := ∃ k r, Alphabet k ∧ r < 2 ^ 64 ∧ b = 
 theorem scan_append (R : Nat) (l1 l2 : List Rec) (h : ∀ x ∈ l1, ∀ y ∈ l2, x.key ≠ y.key) :
     scanRecs R (l1 ++ l2) = scanRecs R l1 ++ scanRecs R l2 :=
   scanRecs_append R l1 l2 h
+
+/-- Border adjustment is TOTAL (/repo 5ace897: `Decode` reports a border too short to be an internal key instead
+of indexing out of range): whatever partitions the engine hands over — borders that are client-supplied bytes
+clipped into a region included — there is an adjusted partition list; the hypothesis `adjustBorders none ps =
+some out` of the theorems below is always satisfiable. -/
+theorem adjustment_total (ps : List (Bytes × Bytes)) : ∃ out, adjustBorders none ps = some out :=
+  adjustBorders_total none ps
+
+/-- ... hence a partitioned scan never panics on account of its borders or of the keys it meets: any store, any
+start and end bytes, any region borders (`KB.C20Requests.stream_with_any_borders_never_panics` for the streamed
+range). -/
+theorem partitioned_scan_never_panics (c : Cfg) (st : Store) (start stop : Bytes) (rev : Nat) :
+    (∃ outs, scanParts c st start stop rev = .ok outs) ∨ (∃ e, scanParts c st start stop rev = .error e) :=
+  ScanRes.notPanic_iff.mp (scanParts_notPanic c st start stop rev)
 
 /-- After adjustment every interior border that decodes is an index-record position. -/
 theorem adjusted_borders_are_index_positions (ps : List (Bytes × Bytes)) (out : List (Bytes × Bytes))
